@@ -98,7 +98,7 @@ REL_COMMON = [("rel:or", inject.inj_group(1, lambda k: k)), ("rel:alt", inject.i
 REL_CARD = [("rel:mutex", inject.inj_group(0, 1)), ("rel:card[a..b]", inject.inj_card_ab),
             ("rel:card[n..n]", inject.inj_group(lambda k: k, lambda k: k)),
             ("rel:card[0..k]", inject.inj_group(0, lambda k: k))]
-REL_MULTI = [("rel:two-groups", inject.inj_two_groups), ("rel:group+mandatory", inject.inj_group_plus_mandatory("alt")),
+REL_MULTI = [("rel:two-groups", inject.inj_two_groups), ("rel:two-same-groups", inject.inj_two_same_groups), ("rel:group+mandatory", inject.inj_group_plus_mandatory("alt")),
              ("rel:group+optional", inject.inj_group_plus_optional), ("rel:group-on-compound", inject.inj_group_on_compound),
              ("rel:or+mandatory", inject.inj_group_plus_mandatory("or"))]
 
@@ -130,6 +130,7 @@ class UVL(Fmt):
                   "name:combining", "name:squote", "name:backslash", "name:xml-special", "name:long200"):
             c.append((t, inject.inj_rename(t)))
         c.append(("name:uvl-keyword", inject.inj_rename("name:uvl-keyword", inject.UVL_KEYWORDS)))
+        c.append(("name:case-twin", inject.inj_case_twin))
         c.append(("name:root-space", inject.inj_rename("name:space", where="root")))
         return c
 
@@ -168,6 +169,7 @@ class JSONF(Fmt):
                 c.append((t, inject.inj_rename(t)))
         c.append(("name:root-space", inject.inj_rename("name:space", where="root")))
         c.append(("name:all-hostile", inject.inj_rename_all("name:punct")))
+        c.append(("name:case-twin", inject.inj_case_twin))
         return c
 
 
@@ -197,6 +199,7 @@ class FIDE(Fmt):
             if t not in ("name:afm-word", "name:control"):
                 c.append((t, inject.inj_rename(t)))
         c.append(("name:root-space", inject.inj_rename("name:space", where="root")))
+        c.append(("name:case-twin", inject.inj_case_twin))
         return c
 
 
@@ -213,6 +216,7 @@ class GLENCOE(Fmt):
             if t != "name:afm-word":
                 c.append((t, inject.inj_rename(t)))
         c.append(("name:root-space", inject.inj_rename("name:space", where="root")))
+        c.append(("name:case-twin", inject.inj_case_twin))
         return c
 
 
